@@ -11,6 +11,7 @@
 //     NS <dec>                sender's nextSequence afterwards;   SP  = the sender panicked
 //   RECV <frame hex>                                                                           (real handleIncomingFrame)
 //     DEC <decode>            spec.ReadPacket of the frame as seen by the harness: E | P <i> <d> <lp>
+//     AL <bytes>              heap bytes allocated during the call (runtime.MemStats.TotalAlloc delta)
 //     DL <thread> <I|D> <raw> <tok> <mark> <nexthop> <cachepolicy>     packet queued to a forwarding thread
 //     ST <nInInterests> <nInData> <store>     store = "-" or base:len,len,..;base:..  (sorted by base)
 //     RP                      the receiver panicked (the case ends)
@@ -23,6 +24,7 @@ import (
 	"fmt"
 	"math/rand"
 	"os"
+	"runtime"
 	"sort"
 	"strconv"
 	"strings"
@@ -292,6 +294,8 @@ func runLpCase(w *bufio.Writer, c *lpCase, r *rand.Rand) {
 			w.Flush()
 			dlog = dlog[:0]
 			panicked := false
+			var m0, m1 runtime.MemStats
+			runtime.ReadMemStats(&m0)
 			func() {
 				defer func() {
 					if p := recover(); p != nil {
@@ -300,6 +304,8 @@ func runLpCase(w *bufio.Writer, c *lpCase, r *rand.Rand) {
 				}()
 				face.VerifHandleIncomingFrame(rcv, o.frame)
 			}()
+			runtime.ReadMemStats(&m1)
+			fmt.Fprintf(w, "AL %d\n", m1.TotalAlloc-m0.TotalAlloc)
 			for _, d := range dlog {
 				fmt.Fprintf(w, "DL %d %s %s %s %s %s %s\n", d.thread, d.kind, hx(d.pkt.Raw), hx(d.pkt.PitToken), optU(d.pkt.CongestionMark),
 					optU(d.pkt.NextHopFaceID), optU(d.pkt.CachePolicy))
